@@ -42,6 +42,7 @@ class DtypeDomain(Domain):
     name = "dtype"
     value_semantics = True
     store_updates_value = False  # x[i] = v never changes the dtype of x
+    inplace_keeps_receiver = True  # x += v keeps the dtype of x (the sum is cast down to it)
 
     def __init__(self):
         self.mix = []
